@@ -181,6 +181,9 @@ func (tt *TermTable) app(op string, s Sort, args ...*Term) *Term {
 	}
 	if s.K == SArr || op == "fresh" {
 		sb.WriteString("|" + s.String())
+	} else if s.K == SBV {
+		// the result width distinguishes zext/sext/conversions of one operand
+		sb.WriteString("|" + strconv.Itoa(s.W))
 	}
 	key := sb.String()
 	return tt.intern(key, func() *Term {
